@@ -100,19 +100,20 @@ def _case(args):
 class C01Spec(ModelSpec):
     """Witness pids w1/w2/w3 hold contents A/B/C; the alphabet acts on other pids only."""
     prop = "C01"
-    pids = ("w1", "w2", "w3", "x", "y")
+    pids = ("w1", "w2", "w3", "1", "xw3")  # '1' is a suffix of w1, w3 is a suffix of 'xw3'
     api_probe = True
     init_ops = (("store", "w1", "A", None), ("store", "w2", "B", None), ("store", "w3", "C", None))
 
     def __init__(self, tier):
         super().__init__()
         self.key_dirs = False
+        x, y = "1", "xw3"
         self.ops = [
-            ("store", "x", "A", None), ("store", "x", "B", None), ("store", "y", "C", None),
-            ("tag", "x", "A"), ("tag", "y", "C"), ("tag", "y", "B"), ("delete", "x"), ("delete", "y"),
+            ("store", x, "A", None), ("store", x, "B", None), ("store", y, "C", None),
+            ("tag", x, "A"), ("tag", y, "C"), ("tag", y, "B"), ("delete", x), ("delete", y),
             ("dii", "A", "badsize"), ("dii", "C", "badck"), ("dii", "B", "badboth"),
-            ("store", "x", "A", "badck:sha1"), ("store", "y", "B", "badsize"), ("store_nopid", "C"),
-            ("store_meta", "x", None, "v1"), ("delete_meta", "x", None),
+            ("store", x, "A", "badck:sha1"), ("store", y, "B", "badsize"), ("store_nopid", "C"),
+            ("store_meta", x, None, "v1"), ("delete_meta", x, None),
             ("store", "w1", "B", None), ("tag", "w2", "A"),
         ]
 
@@ -152,6 +153,13 @@ def _short_writes(case):
             got = O.run(r.store, ("retrieve", op[1]), c)
             if got[0] != "ok" or got[1] != data:
                 errs.append("store_object reported success after a short write but retrieve_object does not return the bytes")
+            if dict(r.outcome[1][2]) != common.digests(data, [a for a, _ in r.outcome[1][2]]):
+                errs.append("store_object reported success after a short write with digests that are not the content's")
+            for a, v in r.outcome[1][2]:
+                hd = O.run(r.store, ("hexdigest", op[1], a), c)
+                if hd[0] != "ok" or hd[1] != v:
+                    errs.append("after a short write get_hex_digest disagrees with the digests store_object reported")
+                    break
         else:
             data = c.docs.data[op[3]]
             got = O.run(r.store, ("retrieve_meta", op[1], op[2]), c)
